@@ -212,6 +212,7 @@ def _encode_kind(rec, kind):
 
 D2 = [("warm", "T"), ("inv", "T"), ("T", "inv"), ("mul", "inv"), ("inv", "mul"), ("neg", "inv"), ("sqrt", "inv"), ("inv", "sqrt"),
       ("mul", "sqrt"), ("div", "T"), ("mul", "mul"), ("inv", "inv"), ("sqrt", "T")]
+D2_K2_QUICK = [("warm", "T"), ("inv", "T"), ("T", "inv"), ("mul", "inv"), ("inv", "mul"), ("neg", "inv")]
 QUICK_D2_KINDS = ["pos_diagonal", "tri_lower", "dense_square", "lowrank_square_neg", "scaled_orthogonal", "inv_lu", "lowrank_square_k2",
                   "lowrank_square_k2_cap"]
 HEAVY = ("lowrank_pd", "dense_pd_product")  # Cholesky/sqrtm chains: seconds per obligation
@@ -229,7 +230,8 @@ def cases(tier):
             heavy = kind.startswith(HEAVY) or kind == "softabs_dense"
             G(f"leaf/{kind}/n{n}/base", [("leaf", {"kind": kind, "n": n})])
             if heavy and not thorough and n == 2:
-                G(f"leaf/{kind}/n{n}/unary", [("leaf", {"kind": kind, "n": n, "ops": (op,)}) for op in ("T", "inv", "mul")])
+                for op in (("T",) if kind == "softabs_dense" else ("T", "inv", "mul")):  # (softabs_dense inv/mul: minutes of z3 time per obligation)
+                    G(f"leaf/{kind}/n{n}/{op}", [("leaf", {"kind": kind, "n": n, "ops": (op,)})])
                 continue
             if n == 2:
                 for op in UNARY:
@@ -252,7 +254,12 @@ def cases(tier):
         for kind in (ml.leaves(n) if thorough else QUICK_D2_KINDS):
             if kind in ("blockdiag_pd", "softabs_dense", "eig_pd") and not thorough:
                 continue
-            if kind.startswith(HEAVY) and n == 2:
+            if kind.startswith("lowrank_square_k2") and not thorough:
+                # rank-2 capacitance: a minute or more per operation pair, so one worker per pair and the pairs that exercise
+                # the capacitance matrix (inverse / transpose / scaling interplay) only
+                for ops in D2_K2_QUICK:
+                    G(f"leaf/{kind}/n{n}/{'.'.join(ops)}", [("leaf", {"kind": kind, "n": n, "ops": ops})])
+            elif kind.startswith(HEAVY) and n == 2:
                 for ops in D2:
                     G(f"leaf/{kind}/n{n}/{'.'.join(ops)}", [("leaf", {"kind": kind, "n": n, "ops": ops})])
             else:
